@@ -11,5 +11,5 @@ PoolSA == PoolQuickSA \cup {Msg(Rep(<<55>>, 83), "l1"), Msg(Rep(<<55, 56, 57>>, 
 VersionsQuickSA == {99, 1, 2, -1}
 VersionsSA == {99, 1, 2, 3, -1}
 CountsQuickSA == {-1, 1, 2, 3, 17}
-CountsSA == {-1, 1, 2, 3, 4, 5, 16, 0, 17}
+CountsSA == {-1, 1, 2, 3, 4, 16, 0, 17}
 =============================================================================
